@@ -5,11 +5,14 @@ import (
 	"flag"
 	"fmt"
 	"math/rand"
+	"os"
+	"strings"
 
 	simdjson "github.com/minio/simdjson-go"
 
 	"verif/harness/internal/blob"
 	"verif/harness/internal/run"
+	"verif/harness/internal/tla"
 )
 
 // v-serhist: every history of up to L operations on ONE Serializer (and one
@@ -26,6 +29,7 @@ func init() {
 }
 
 type serOp struct {
+	key   string // the operation as SerHist.tla names it
 	kind  string // ser, deser, bad
 	doc   int
 	mode  int
@@ -40,6 +44,8 @@ func vserhist(args []string) error {
 	maxLen := fs.Int("len", 2, "exhaustive history length")
 	sample := fs.Int("sample", 4000, "random histories of length len+1 and len+2")
 	prop := fs.String("property", "C11", "property id")
+	dump := fs.String("dump", "", "SerHist.tla dump: take the exhaustive histories from TLC instead of enumerating them here")
+	expect := fs.Int64("expect", -1, "states TLC reported")
 	fs.Parse(args)
 	r := rand.New(rand.NewSource(*seed))
 	rep := run.NewReport()
@@ -63,23 +69,23 @@ func vserhist(args []string) error {
 	fresh := simdjson.NewSerializer()
 	for d := range docs {
 		for mode := 0; mode < 4; mode++ {
-			ops = append(ops, serOp{kind: "ser", doc: d, mode: mode, label: fmt.Sprintf("Serialize(doc%d,mode%d)", d, mode)})
+			ops = append(ops, serOp{key: fmt.Sprintf("ser/%d/%d", d+1, mode), kind: "ser", doc: d, mode: mode, label: fmt.Sprintf("Serialize(doc%d,mode%d)", d, mode)})
 			fresh.CompressMode(simdjson.CompressMode(mode))
 			b := append([]byte{}, fresh.Serialize(nil, *docs[d])...)
-			ops = append(ops, serOp{kind: "deser", doc: d, mode: mode, blob: b, label: fmt.Sprintf("Deserialize(doc%d written in mode%d)", d, mode)})
+			ops = append(ops, serOp{key: fmt.Sprintf("deser/%d/%d", d+1, mode), kind: "deser", doc: d, mode: mode, blob: b, label: fmt.Sprintf("Deserialize(doc%d written in mode%d)", d, mode)})
 			if bl, err := blob.Parse(b); err == nil && mode != 0 {
 				// damage the compressed payload of each block in turn (framing intact)
 				for sec, name := range []string{"message", "tags", "values"} {
 					if c := damageBlock(b, sec); c != nil {
-						ops = append(ops, serOp{kind: "bad", doc: d, mode: mode, blob: c, label: fmt.Sprintf("Deserialize(doc%d mode%d, %s payload damaged)", d, mode, name)})
+						ops = append(ops, serOp{key: fmt.Sprintf("bad/%d/%d/%d", d+1, mode, sec+1), kind: "bad", doc: d, mode: mode, blob: c, label: fmt.Sprintf("Deserialize(doc%d mode%d, %s payload damaged)", d, mode, name)})
 					}
 				}
 				_ = bl
 			}
-			ops = append(ops, serOp{kind: "bad", doc: d, mode: mode, blob: b[:len(b)*2/3], label: fmt.Sprintf("Deserialize(doc%d mode%d truncated)", d, mode)})
+			ops = append(ops, serOp{key: fmt.Sprintf("bad/%d/%d/4", d+1, mode), kind: "bad", doc: d, mode: mode, blob: b[:len(b)*2/3], label: fmt.Sprintf("Deserialize(doc%d mode%d truncated)", d, mode)})
 		}
 	}
-	ops = append(ops, serOp{kind: "bad", blob: []byte{9, 1, 0}, label: "Deserialize(bad version)"})
+	ops = append(ops, serOp{key: "bad/1/0/5", kind: "bad", blob: []byte{9, 1, 0}, label: "Deserialize(bad version)"})
 	runHist := func(h []int) {
 		s := simdjson.NewSerializer()
 		d := simdjson.NewSerializer()
@@ -131,6 +137,51 @@ func vserhist(args []string) error {
 		}
 		rep.Nontrivial++
 	}
+	enumerate := true
+	if *dump != "" {
+		// the histories come out of TLC (SerHist.tla): every history up to its MaxOps
+		byKey := map[string]int{}
+		for i, o := range ops {
+			byKey[o.key] = i
+		}
+		f, err := os.Open(*dump)
+		if err != nil {
+			return err
+		}
+		defer f.Close()
+		n, err := tla.ReadDump(f, func(st tla.State) error {
+			var h []int
+			for _, o := range st["hist"].E {
+				parts := []string{o.E[0].S}
+				for _, x := range o.E[1:] {
+					parts = append(parts, fmt.Sprint(x.I))
+				}
+				i, ok := byKey[strings.Join(parts, "/")]
+				if !ok {
+					return fmt.Errorf("SerHist operation %v has no real counterpart (its blob could not be built)", parts)
+				}
+				h = append(h, i)
+			}
+			if len(h) > 0 {
+				last, want := ops[h[len(h)-1]], int64(0)
+				if last.kind != "bad" {
+					want = int64(last.doc + 1)
+				}
+				if st["expect"].I != want {
+					return fmt.Errorf("SerHist expects document %d after %s, the replayer's table says %d", st["expect"].I, last.label, want)
+				}
+				runHist(h)
+			}
+			return nil
+		})
+		if err != nil {
+			return err
+		}
+		if *expect >= 0 && int64(n) != *expect {
+			return fmt.Errorf("dump has %d states, TLC reported %d", n, *expect)
+		}
+		enumerate = false
+	}
 	var rec func(h []int)
 	rec = func(h []int) {
 		if len(h) > 0 {
@@ -143,7 +194,9 @@ func vserhist(args []string) error {
 			rec(append(append([]int{}, h...), i))
 		}
 	}
-	rec(nil)
+	if enumerate {
+		rec(nil)
+	}
 	for k := 0; k < *sample; k++ {
 		h := make([]int, *maxLen+1+k%2)
 		for i := range h {
